@@ -216,3 +216,52 @@ func goldenMax(f func(float64) float64, lo, hi float64, scan, iters int) (float6
 	t, v := goldenMin(func(x float64) float64 { return -f(x) }, lo, hi, scan, iters)
 	return t, -v
 }
+
+// polyCurve approximates a smooth curve on the sphere by a chain of n short
+// geodesic pieces. If the curve deviates from the geodesic chord of its end
+// points by at most E, a piece deviates from its own chord by about E/n²
+// (n = 64: < 1e-3·E, the discretisation allowance of DESIGN.md §2.5).
+type polyCurve []s2.Point
+
+const curvePieces = 64
+
+// curveFudge is the relative allowance for that discretisation.
+const curveFudge = 2e-3
+
+func mkCurve(pt func(s float64) s2.Point) polyCurve {
+	c := make(polyCurve, curvePieces+1)
+	for i := range c {
+		c[i] = pt(float64(i) / curvePieces)
+	}
+	return c
+}
+
+// dist is the distance from g to the polyline; pieces around index `near`
+// are tried first and the rest only if the result is still above `limit`.
+func (c polyCurve) dist(g s2.Point, near int, limit float64) float64 {
+	best := math.Inf(1)
+	lo, hi := near-6, near+6
+	if lo < 0 {
+		lo = 0
+	}
+	if hi > len(c)-1 {
+		hi = len(c) - 1
+	}
+	for i := lo; i < hi; i++ {
+		if d := distPointEdge(g, c[i], c[i+1]); d < best {
+			best = d
+		}
+	}
+	if best <= limit {
+		return best
+	}
+	for i := 0; i+1 < len(c); i++ {
+		if i >= lo && i < hi {
+			continue
+		}
+		if d := distPointEdge(g, c[i], c[i+1]); d < best {
+			best = d
+		}
+	}
+	return best
+}
